@@ -32,14 +32,15 @@ open HalmosVerif.Props.C01 (exEnv exI exOracle exF0 exPC exWC)
         area, the pc one further;
       * the path conditions and the rest of the suspended callers as they are. -/
 theorem atomic_model (cs : CState) (k : Cont) (ks : List Cont) (hc : cs.conts = k :: ks) (e : EndState)
-    (h : Evm.Halt) (ho : e.out = .halt h) (ht : e.tag = .normal) (hf : haltOk h = false) :
+    (h : Evm.Halt) (ho : e.out = .halt h) (ht : e.tag = .normal) (hf : haltOk h = false)
+    (hk : k.create = none) :
     ∃ cs', (frameEnd cs e).next = [cs'] ∧ (frameEnd cs e).ends = [] ∧
       (∀ a, viewOf cs' a = stoOf k.snapshot a) ∧ cs'.stores = k.snapshot ∧ cs'.logs = k.snapLogs ∧
       cs'.bal = k.snapBal ∧ cs'.st.stack = .bv 256 (.con 0) :: k.st.stack ∧ cs'.st.returndata = haltData h e.data ∧
       cs'.st.mem = writeMem k.st.mem k.retLoc ((haltData h e.data).take (min k.retSize (haltData h e.data).length)) ∧
       cs'.st.pc = k.st.pc + 1 ∧ cs'.st.path = e.st.path ∧ cs'.conts = ks ∧ cs'.this = k.this ∧ cs'.env = k.env ∧
       cs'.code = k.code := by
-  rw [frameEnd_resume hc ho ht]
+  rw [frameEnd_resume hc ho ht hk]
   refine ⟨_, rfl, rfl, fun a => ?_, ?_, ?_, ?_, ?_, rfl, rfl, rfl, rfl, rfl, rfl, rfl, rfl⟩
   · simp only [viewOf, resume, hf, Bool.false_eq_true, if_false]
     exact view_eta _ _ a
@@ -50,11 +51,12 @@ theorem atomic_model (cs : CState) (k : Cont) (ks : List Cont) (hc : cs.conts = 
 
 /-- the successful counterpart: everything the callee did persists (`fullOf`: its maps written back), flag 1 -/
 theorem success_model (cs : CState) (k : Cont) (ks : List Cont) (hc : cs.conts = k :: ks) (e : EndState)
-    (h : Evm.Halt) (ho : e.out = .halt h) (ht : e.tag = .normal) (hf : haltOk h = true) :
+    (h : Evm.Halt) (ho : e.out = .halt h) (ht : e.tag = .normal) (hf : haltOk h = true)
+    (hk : k.create = none) :
     ∃ cs', (frameEnd cs e).next = [cs'] ∧
       (∀ a, viewOf cs' a = stoOf (fullOf cs e) a) ∧ cs'.logs = cs.logs ∧ cs'.bal = cs.bal ∧
       cs'.st.stack = .bv 256 (.con 1) :: k.st.stack ∧ cs'.st.returndata = haltData h e.data := by
-  rw [frameEnd_resume hc ho ht]
+  rw [frameEnd_resume hc ho ht hk]
   refine ⟨_, rfl, fun a => ?_, ?_, ?_, ?_, rfl⟩
   · simp only [viewOf, resume, hf, if_true]
     exact view_eta _ _ a
@@ -68,7 +70,7 @@ theorem success_model (cs : CState) (k : Cont) (ks : List Cont) (hc : cs.conts =
 theorem snapshot_model (s : Simp) (cs : CState) (op t ao al ro rl : Nat) (rest : List HV) (prog : List Nat) :
     ∃ k, (calleeOf s cs op t ao al ro rl rest prog).conts = k :: cs.conts ∧
       (∀ a, stoOf k.snapshot a = viewOf cs a) ∧ k.snapLogs = cs.logs ∧ k.snapBal = cs.bal ∧ k.this = cs.this ∧
-      k.env = cs.env ∧
+      k.env = cs.env ∧ k.create = none ∧
       k.code = cs.code ∧ k.retLoc = ro ∧ k.retSize = rl ∧ k.st = { cs.st with stack := rest } ∧
       (∀ a, viewOf (calleeOf s cs op t ao al ro rl rest prog) a = viewOf cs a) ∧
       (calleeOf s cs op t ao al ro rl rest prog).logs = cs.logs ∧
@@ -76,7 +78,7 @@ theorem snapshot_model (s : Simp) (cs : CState) (op t ao al ro rl : Nat) (rest :
   have hsto : ∀ a, stoOf (stoSet cs.stores cs.this
       { storage := cs.st.storage, transient := cs.st.transient }) a = viewOf cs a := by
     intro a; rw [stoOf_stoSet]; rfl
-  refine ⟨_, rfl, hsto, rfl, rfl, rfl, rfl, rfl, rfl, rfl, rfl, fun a => ?_, rfl, rfl⟩
+  refine ⟨_, rfl, hsto, rfl, rfl, rfl, rfl, rfl, rfl, rfl, rfl, rfl, fun a => ?_, rfl, rfl⟩
   have : viewOf (calleeOf s cs op t ao al ro rl rest prog) a =
       stoOf (stoSet cs.stores cs.this { storage := cs.st.storage, transient := cs.st.transient }) a :=
     view_eta _ _ a
@@ -89,18 +91,18 @@ theorem atomic_roundtrip (s : Simp) (cs : CState) (op t ao al ro rl : Nat) (rest
     ∃ cs', (frameEnd (calleeOf s cs op t ao al ro rl rest prog) e).next = [cs'] ∧
       (∀ a, viewOf cs' a = viewOf cs a) ∧ cs'.logs = cs.logs ∧ cs'.bal = cs.bal ∧ cs'.conts = cs.conts ∧
       cs'.this = cs.this := by
-  obtain ⟨k, hk, hsnap, hlg, hbl, hthis, _⟩ := snapshot_model s cs op t ao al ro rl rest prog
+  obtain ⟨k, hk, hsnap, hlg, hbl, hthis, _, hkc, _⟩ := snapshot_model s cs op t ao al ro rl rest prog
   obtain ⟨cs', h1, _, hv, _, hl, hb, _, _, _, _, _, hc, ht', _⟩ :=
-    atomic_model (calleeOf s cs op t ao al ro rl rest prog) k cs.conts hk e h ho ht hf
+    atomic_model (calleeOf s cs op t ao al ro rl rest prog) k cs.conts hk e h ho ht hf hkc
   exact ⟨cs', h1, fun a => (hv a).trans (hsnap a), hl.trans hlg, hb.trans hbl, hc, ht'.trans hthis⟩
 
 /-- **conts_discipline.** One step of the frame-stack machine keeps the suspended callers, pushes one on top (a call)
     or pops the top one (the running frame ended): a suspended caller — its state, its snapshot — is never modified
     while its callee, and whatever that calls, runs. -/
 theorem conts_discipline {s : Simp} {o : Oracle} {cfg : Cfg} {codes : List (Nat × List Nat)} {cs cs' : CState}
-    (h : cs' ∈ (stepC s o cfg codes cs).next) :
+    (hnc : cfg.create = false) (h : cs' ∈ (stepC s o cfg codes cs).next) :
     cs'.conts = cs.conts ∨ (∃ k, cs'.conts = k :: cs.conts) ∨ (∃ k, cs.conts = k :: cs'.conts) :=
-  stepC_conts h
+  stepC_conts hnc h
 
 /-! ### atomicity on the reference -/
 
